@@ -506,6 +506,11 @@ AV Interp::icmp(CmpInst::Predicate P, const AV &a, const AV &b, int bits) {
     const Term &x = TT.t[a.t];
     if (x.op == TT.OP_ZEXT && x.k == 1) { AV inner = avOfTerm(x.a[0]); return P == CmpInst::ICMP_NE ? inner : AV::Tm(TT.mk(TT.OP_NOT, {x.a[0]}, 0, 1), 1); }
   }
+  if (P == CmpInst::ICMP_EQ || P == CmpInst::ICMP_NE) { // one canonical atom per (in)equality: eq is the negation of ne, operands ordered
+    int x = termOf(a), y = termOf(b); if (y < x) std::swap(x, y);
+    int ne = TT.mk("icmp.ne", {x, y}, bits, 1);
+    return P == CmpInst::ICMP_NE ? AV::Tm(ne, 1) : AV::Tm(TT.mk(TT.OP_NOT, {ne}, 0, 1), 1);
+  }
   return AV::Tm(TT.mk(std::string("icmp.") + CmpInst::getPredicateName(P).str(), {termOf(a), termOf(b)}, bits, 1), 1);
 }
 AV Interp::fcmp(CmpInst::Predicate P, const AV &a, const AV &b) {
